@@ -54,6 +54,23 @@ def handle (args : List String) (impl : String) : R Ans :=
       | .set n => (decide (nobs ≥ n), toString label)
     let expect := if valid ∧ nobs ≥ 1 then s!"{key}:{toHex exts 2}:{payload}" else "-"
     pure { model := expect, verdict := if impl == expect then "ok" else s!"FAIL:deep-k-mer-row-differs-from-the-statement(expected {expect})" }
+  | ["deepmix", k, n, t, st] => do
+    -- one read `A^n t A^n`, n > 2^19: the bucket of `A^K` receives more than 2^20 observations and holds several distinct k-mers.
+    -- Too long for the executable model; judged against the statement: the distinct k-mers, their extension sets and the counts
+    -- of the k-mers across `t` are those of the short read `A^(K+2) t A^(K+2)` (same windows, same flanks), computed by the
+    -- reference grouping; only the count of `A^K` differs: 2 (n - K + 1), saturated. All k-mers valid (count >= 1), listed ascending.
+    let K ← nat k; let n ← nat n; let t ← digits t; let st ← bool st
+    if n < K + 2 then throw "bad-request" else
+    let short : Compress.Seq := List.replicate (K + 2) 0 ++ t ++ List.replicate (K + 2) 0
+    let reads : List (Compress.Seq × Compress.Exts × Nat) := [(short, ⟨0⟩, 0)]
+    let aK : Compress.Seq := List.replicate K 0
+    let rt := (refTable K reads (.count 1) st).map fun e =>
+      if e.key == aK then { e with data := [min (2 * (n - K + 1)) Gen.countSaturation] } else e
+    let all := refAllKmers K reads st
+    let expect := s!"{showTable rt}|{if all.isEmpty then "-" else ",".intercalate (all.map showDigits)}"
+    pure { model := expect, verdict := if impl == expect then "ok" else
+      if (impl.splitOn "|").head? ≠ (expect.splitOn "|").head? then "FAIL:table-differs-from-reference-grouping(deepmix)"
+      else "FAIL:all-kmers-list-differs-from-distinct-kmers-ascending(deepmix)" }
   | _ => throw "bad-request"
 
 end Drv.C05
